@@ -56,7 +56,8 @@ Variable fl : string -> outcome flres.
 Lemma rename_step : forall a value vo st d',
   doc_inv (fst st) = true -> a_name a = true ->
   rename_key (a_pc a) value vo (fst st) = ROk d' ->
-  psteps (abs_action2 lit fl value vo a st) (erase (fst st)) (erase d') /\ doc_inv d' = true.
+  psteps (abs_action2 lit fl value vo a st) (erase (fst st)) (erase d') /\ doc_inv d' = true /\
+  incl (coids d') (coids (fst st)).
 Proof.
   intros a value vo [d next] d' Hinv Hname Hr. simpl in *.
   apply doc_inv_iff in Hinv. destruct Hinv as [Hl Hwf].
@@ -79,6 +80,13 @@ Proof.
         rewrite <- (putf_krename o idx _ i kvs d)
           by (intros n Hn'; apply (objs_unique o d (NMap i kvs) n Hwf Hin Hn')).
         set (kvs' := imap (fun j kv0 => if Nat.eqb j idx then (NLeaf (mkinfo vo None false None) value, snd kv0) else kv0) 0 kvs) in *.
+        assert (Hperm : Permutation (coids (putf o (NMap i kvs') d)) (coids d)).
+        { assert (Hsnd0 : map snd kvs' = map snd kvs).
+          { unfold kvs'. generalize 0%nat. clear. induction kvs as [|kv0 r IH]; intros k; simpl; auto.
+            rewrite IH. destruct (Nat.eqb k idx); reflexivity. }
+          rewrite <- (app_nil_r (coids d)). apply (putf_perm o _ (NMap i kvs) [] d Hwf Hin).
+          rewrite app_nil_r. simpl. apply perm_skip.
+          rewrite <- (flat_map_map _ _ _ snd coids), Hsnd0, flat_map_map. apply Permutation_refl. }
         assert (Hsnd : map snd kvs' = map snd kvs).
         { unfold kvs'. generalize 0%nat. clear. induction kvs as [|kv r IH]; intros k; simpl; auto.
           rewrite IH. destruct (Nat.eqb k idx); reflexivity. }
@@ -88,6 +96,7 @@ Proof.
           unfold kvs'. generalize 0%nat. clear - Hm. induction kvs as [|kv r IH]; intros k; simpl; auto.
           simpl in Hm. apply andb_true_iff in Hm. destruct Hm as [Hk Hm]. apply andb_true_iff in Hk.
           rewrite IH by exact Hm. destruct (Nat.eqb k idx); simpl; [reflexivity|]. destruct Hk as [-> _]. reflexivity. }
+        split; [|intros y Hy; apply (Permutation_in _ Hperm Hy)].
         apply doc_inv_intro.
         -- apply putf_linv; auto.
            pose proof (objs_linv o d (NMap i kvs) Hl Hin) as Hm. simpl in Hm.
@@ -96,13 +105,9 @@ Proof.
            rewrite forallb_andb. rewrite Hleaf. simpl.
            rewrite forallb_andb in Hvals. apply andb_true_iff in Hvals. destruct Hvals as [_ Hvals].
            rewrite <- (forallb_map_local _ _ snd linv) in *. rewrite Hsnd. exact Hvals.
-        -- unfold wf_doc.
-           eapply Permutation_NoDup; [apply Permutation_sym; apply (putf_perm o _ (NMap i kvs) [] d Hwf Hin)|].
-           ++ rewrite app_nil_r. simpl. apply perm_skip.
-              rewrite <- (flat_map_map _ _ _ snd coids), Hsnd, flat_map_map. apply Permutation_refl.
-           ++ rewrite app_nil_r. exact Hwf.
-    + rewrite Hx in Hr. inversion Hr; subst d'. split; [constructor|]. apply doc_inv_iff. auto.
-  - rewrite Hx in Hr. inversion Hr; subst d'. split; [constructor|]. apply doc_inv_iff. auto.
+        -- unfold wf_doc. eapply Permutation_NoDup; [apply Permutation_sym; exact Hperm|exact Hwf].
+    + rewrite Hx in Hr. inversion Hr; subst d'. split; [constructor|]. split; [apply doc_inv_iff; auto|apply incl_refl].
+  - rewrite Hx in Hr. inversion Hr; subst d'. split; [constructor|]. split; [apply doc_inv_iff; auto|apply incl_refl].
 Qed.
 
 (* a completed _update_node witnesses that the change is not one the code refuses *)
@@ -140,7 +145,8 @@ Qed.
 Lemma action_step : forall value vo a st st',
   doc_inv (fst st) = true -> act_ok2 a st = true ->
   apply_action lit fl value vo a st = ROk st' ->
-  psteps (abs_action2 lit fl value vo a st) (erase (fst st)) (erase (fst st')) /\ doc_inv (fst st') = true.
+  psteps (abs_action2 lit fl value vo a st) (erase (fst st)) (erase (fst st')) /\ doc_inv (fst st') = true /\
+  incl (coids (fst st')) (coids (fst st)).
 Proof.
   intros value vo a st st' Hinv Hok Ha.
   destruct (a_name a) eqn:Hname.
@@ -173,26 +179,28 @@ Proof.
           inversion Et; subst o0 r c0.
           destruct (update_no_conflict _ _ _ _ _ _ _ _ _ _ Ep Ef Eg Hu) as [new [Hm' Hk]].
           rewrite Hm in Hm'. inversion Hm'; subst new. exact Hk. }
-        subst st'. simpl. apply doc_inv_intro.
+        subst st'. simpl. split; [|intros x Hx; eapply sublist_in; [apply set_coids|exact Hx]].
+        apply doc_inv_intro.
         -- apply set_linv; auto.
         -- unfold wf_doc. eapply sublist_nodup; [apply set_coids|exact Hwf].
     + rewrite (update_no_target a value vo st st' Hname Et Ha).
-      unfold abs_action2. rewrite Hname, Et. split; [constructor|exact Hinv].
+      unfold abs_action2. rewrite Hname, Et. split; [constructor|]. split; [exact Hinv|apply incl_refl].
 Qed.
 
 (* THE CHAIN, renames included, invariants derived *)
 Theorem actions_refine2 : forall value vo acts st st',
   doc_inv (fst st) = true -> acts_ok2 lit fl value vo acts st = true ->
   run_actions lit fl value vo acts st = SDone st' ->
-  psteps (abs_actions2 lit fl value vo acts st) (erase (fst st)) (erase (fst st')) /\ doc_inv (fst st') = true.
+  psteps (abs_actions2 lit fl value vo acts st) (erase (fst st)) (erase (fst st')) /\ doc_inv (fst st') = true /\
+  incl (coids (fst st')) (coids (fst st)).
 Proof.
   intros value vo acts. induction acts as [|a r IH]; intros st st' Hinv Hok H; simpl in *.
-  - inversion H; subst. split; [constructor|assumption].
+  - inversion H; subst. split; [constructor|]. split; [assumption|apply incl_refl].
   - apply andb_true_iff in Hok. destruct Hok as [Hok1 Hok2].
     destruct (apply_action lit fl value vo a st) as [st1|e] eqn:Ea; [|discriminate].
-    destruct (action_step _ _ _ _ _ Hinv Hok1 Ea) as [Hp Hinv1].
-    destruct (IH st1 st' Hinv1 Hok2 H) as [Hp' Hinv'].
-    split; auto. eapply psteps_app; eauto.
+    destruct (action_step _ _ _ _ _ Hinv Hok1 Ea) as [Hp [Hinv1 Hc1]].
+    destruct (IH st1 st' Hinv1 Hok2 H) as [Hp' [Hinv' Hc']].
+    split; [eapply psteps_app; eauto|]. split; auto. eapply incl_tran; eauto.
 Qed.
 
 (* ---------------- Delete and Create keep the invariants ---------------- *)
@@ -238,9 +246,21 @@ Proof.
 Qed.
 
 (* ---------------- one operation, the history ---------------- *)
+(* the identities a Create step may hand to containers: below the counter its walk returns *)
+Definition op_id_bound (op : hop) (d : node) : N :=
+  match op with
+  | HCreate segs v f vo =>
+      match create_walk lit segs v vo d with
+      | (_, ROk (_, _, next1)) => next1
+      | _ => 0%N
+      end
+  | _ => 0%N
+  end.
+
 Lemma op_refines2 : forall op d d',
   doc_inv d = true -> op_ok2 lit fl op d = true -> run_op lit fl op d = MDone d' ->
-  psteps (abs_op2 lit fl op d) (erase d) (erase d') /\ doc_inv d' = true.
+  psteps (abs_op2 lit fl op d) (erase d) (erase d') /\ doc_inv d' = true /\
+  (forall x, In x (coids d') -> In x (coids d) \/ (x < op_id_bound op d)%N).
 Proof.
   intros op d d' Hinv Hok H.
   destruct op as [cs v f vo|segs v f vo|cs]; unfold run_op, abs_op2, op_ok2 in *.
@@ -250,24 +270,29 @@ Proof.
     inversion H; subst d'.
     assert (Hd0 : fst (snd (sv_start vo (init_state d))) = d) by (destruct vo; reflexivity).
     assert (Hw0 : doc_inv (fst (snd (sv_start vo (init_state d)))) = true) by (rewrite Hd0; exact Hinv).
-    destruct (actions_refine2 _ _ _ _ _ Hw0 Hok Er) as [Hp Hi]. rewrite Hd0 in Hp. auto.
+    destruct (actions_refine2 _ _ _ _ _ Hw0 Hok Er) as [Hp [Hi Hc]]. rewrite Hd0 in Hp, Hc. auto.
   - rewrite create_set_unfold in H.
     destruct (create_walk lit segs v vo d) as [vo' [[[d1 pc] n1]|e]] eqn:Ew; [|discriminate].
     destruct (run_actions lit fl v vo' [mkact pc false f] (d1, n1)) as [st'|st' e] eqn:Er; [|discriminate].
     inversion H; subst d'.
-    destruct (create_walk_inv _ _ _ _ _ _ _ _ Hinv Ew) as [Hinv1 _].
-    destruct (actions_refine2 v vo' [mkact pc false f] (d1, n1) st' Hinv1 Hok Er) as [Hp Hi].
-    split; auto. econstructor; [|exact Hp]. constructor.
+    destruct (create_walk_inv _ _ _ _ _ _ _ _ Hinv Ew) as [Hinv1 Hb1].
+    destruct (actions_refine2 v vo' [mkact pc false f] (d1, n1) st' Hinv1 Hok Er) as [Hp [Hi Hc]].
+    split; [|split; [exact Hi|]].
+    2:{ intros x Hx. apply Hc in Hx. simpl in Hx. destruct (Hb1 x Hx) as [Hx1|Hx1]; [left; exact Hx1|right].
+        unfold op_id_bound. rewrite Ew. lia. }
+    econstructor; [|exact Hp]. constructor.
     apply doc_inv_iff in Hinv. destruct Hinv as [_ Hwf].
     unfold create_walk in Ew. inversion Ew; subst.
     eapply erase_embeds.
     eapply (walk_frame_g _ _ _ _ _ _ _ _ _ _ _ (snd (snd (sv_start vo (init_state d)))));
       [exact Hwf| |apply N.le_refl|eassumption].
     intros o Ho. apply objs_self. exact Ho.
-  - pose proof (delete_doc_inv cs d d' Hinv Hok H) as Hi. split; auto.
+  - pose proof (delete_doc_inv cs d d' Hinv Hok H) as Hi.
     apply doc_inv_iff in Hinv. destruct Hinv as [_ Hwf].
     rewrite (delete_exact d cs Hwf Hok) in H. inversion H; subst d'.
-    econstructor; [|constructor]. unfold delete_spec. rewrite erase_prune. constructor.
+    split; [|split; [exact Hi|]].
+    + econstructor; [|constructor]. unfold delete_spec. rewrite erase_prune. constructor.
+    + intros x Hx. left. eapply sublist_in; [apply prune_coids|exact Hx].
 Qed.
 
 (* THE HISTORY THEOREM: the invariants are a hypothesis on the first document only *)
@@ -279,7 +304,7 @@ Proof.
   - inversion H; subst. split; [constructor|assumption].
   - apply andb_true_iff in Hok. destruct Hok as [Hok1 Hok2].
     destruct (run_op lit fl op d) as [d1|d1 e] eqn:Eo; [|discriminate].
-    destruct (op_refines2 _ _ _ Hinv Hok1 Eo) as [Hp Hinv1].
+    destruct (op_refines2 _ _ _ Hinv Hok1 Eo) as [Hp [Hinv1 _]].
     destruct (IH d1 (S k) d' Hinv1 Hok2 H) as [Hp' Hinv'].
     split; auto. eapply psteps_app; eauto.
 Qed.
@@ -293,7 +318,7 @@ Proof.
   induction ops as [|op r IH]; intros d k d' e n Hinv Hok H; simpl in *; [discriminate|].
   apply andb_true_iff in Hok. destruct Hok as [Hok1 Hok2].
   destruct (run_op lit fl op d) as [d1|d1 e1] eqn:Eo.
-  - destruct (op_refines2 _ _ _ Hinv Hok1 Eo) as [Hp Hinv1].
+  - destruct (op_refines2 _ _ _ Hinv Hok1 Eo) as [Hp [Hinv1 _]].
     destruct (IH d1 (S k) d' e n Hinv1 Hok2 H) as [dn [rest [op' [d0 [E1 [E2 [E3 [E4 [E5 E6]]]]]]]]].
     exists (op :: dn), rest, op', d0. subst. simpl. rewrite Eo. repeat split; auto; try lia.
     eapply psteps_app; eauto.
